@@ -117,7 +117,7 @@ fn make_base(name: String, class: &'static str, text: String) -> Option<Base> {
     }
 }
 
-fn collect_bases(args: &Args, ev: &mut Evidence, n_generated: usize) -> (Vec<Base>, Vec<proptest::strategy::BoxedStrategy<String>>) {
+fn collect_bases(args: &Args, ev: &mut Evidence, n_generated: usize) -> Vec<Base> {
     let mut bases = Vec::new();
     let root = vcore::repo_root();
     let mut seen = std::collections::HashSet::new();
@@ -168,7 +168,7 @@ fn collect_bases(args: &Args, ev: &mut Evidence, n_generated: usize) -> (Vec<Bas
             None => ev.discard("generated-does-not-parse"),
         }
     }
-    (bases, Vec::new())
+    bases
 }
 
 // ------------------------------------------------------------------------------------------------------------
@@ -325,7 +325,7 @@ fn main() {
 
     // ---- bases
     let n_gen = args.tier.pick(250usize, 4000usize);
-    let (bases, _) = collect_bases(&args, &mut ev, n_gen);
+    let bases = collect_bases(&args, &mut ev, n_gen);
     let mut by_class: BTreeMap<&str, u64> = BTreeMap::new();
     for b in &bases {
         *by_class.entry(b.class).or_insert(0) += 1;
@@ -391,54 +391,60 @@ fn main() {
         }
     }
     chosen.sort();
-    let analyses: Vec<Option<Analysis>> = chosen.iter().map(|&i| Analysis::new(&bases[i].text)).collect();
-    let mut work: Vec<(usize, Edit)> = Vec::new();
+    // evaluated in chunks of bases so that memory stays bounded in the thorough tier
     let mut model_disagrees = 0u64;
-    for (k, a) in analyses.iter().enumerate() {
-        let Some(a) = a else { continue };
-        if !a.model_agrees_with_lexer() {
-            model_disagrees += 1;
+    let mut exhaustive_cases = 0u64;
+    let mut next_sample_at = 400u64;
+    for chunk in chosen.chunks(40) {
+        let analyses: Vec<Option<Analysis>> = chunk.iter().map(|&i| Analysis::new(&bases[i].text)).collect();
+        let mut work: Vec<(usize, Edit)> = Vec::new();
+        for (k, a) in analyses.iter().enumerate() {
+            let Some(a) = a else { continue };
+            let agrees = a.model_agrees_with_lexer();
+            if !agrees {
+                model_disagrees += 1;
+            }
+            for e in layout::enumerate_edits(a, variants) {
+                if matches!(e, Edit::Reindent { .. }) && !agrees {
+                    ev.discard("reindent:indent-model-disagrees-with-lexer");
+                    continue;
+                }
+                work.push((k, e));
+            }
         }
-        for e in layout::enumerate_edits(a, variants) {
-            if matches!(e, Edit::Reindent { .. }) && !a.model_agrees_with_lexer() {
-                ev.discard("reindent:indent-model-disagrees-with-lexer");
+        let results: Vec<CaseResult> = pool.install(|| {
+            work.par_iter()
+                .map(|(k, e)| run_one(&bases[chunk[*k]], analyses[*k].as_ref().unwrap(), e, &out))
+                .collect()
+        });
+        for ((k, e), r) in work.iter().zip(results.iter()) {
+            if let Some(key) = r.excluded {
+                ev.exclude(key);
                 continue;
             }
-            work.push((k, e));
+            if !r.applied {
+                ev.discard("position-not-admissible");
+                continue;
+            }
+            ev.case(r.nontrivial_id);
+            ev.class(&format!("exhaustive:{}", r.kind));
+            exhaustive_cases += 1;
+            let b = &bases[chunk[*k]];
+            if exhaustive_cases == next_sample_at {
+                // a handful of samples spread over the sweep (positions 400, 2 000, 10 000, 50 000, 250 000)
+                next_sample_at *= 5;
+                if let Some(t) = layout::apply(analyses[*k].as_ref().unwrap(), e) {
+                    ev.sample(json!({"leg": "exhaustive", "base": b.name, "edit": format!("{e:?}"), "edited_excerpt": excerpt(&b.text, &t)}));
+                }
+            }
+            if let Some((f, edited)) = &r.fail {
+                report(&mut out, &mut ev, &b.text, edited, &format!("{e:?} on {}", b.name), f);
+            }
         }
     }
     ev.set("exhaustive_bases", json!(chosen.len()));
     ev.set("exhaustive_bases_bytes", json!(used));
     ev.set("indent_model_disagrees_with_lexer_bases", json!(model_disagrees));
-    let results: Vec<CaseResult> = pool.install(|| {
-        work.par_iter()
-            .map(|(k, e)| run_one(&bases[chosen[*k]], analyses[*k].as_ref().unwrap(), e, &out))
-            .collect()
-    });
-    let mut sample_stride = (results.len() / 5).max(1);
-    for (i, ((k, e), r)) in work.iter().zip(results.iter()).enumerate() {
-        if let Some(key) = r.excluded {
-            ev.exclude(key);
-            continue;
-        }
-        if !r.applied {
-            ev.discard("position-not-admissible");
-            continue;
-        }
-        ev.case(r.nontrivial_id);
-        ev.class(&format!("exhaustive:{}", r.kind));
-        let b = &bases[chosen[*k]];
-        if i % sample_stride == sample_stride / 2 {
-            if let Some(t) = layout::apply(analyses[*k].as_ref().unwrap(), e) {
-                ev.sample(json!({"leg": "exhaustive", "base": b.name, "edit": format!("{e:?}"), "edited_excerpt": excerpt(&b.text, &t)}));
-            }
-        }
-        if let Some((f, edited)) = &r.fail {
-            report(&mut out, &mut ev, &b.text, edited, &format!("{e:?} on {}", b.name), f);
-        }
-    }
-    sample_stride = 0;
-    let _ = sample_stride;
     ev.exhaustive = Some(true);
     ev.set(
         "exhaustive_scope",
